@@ -166,7 +166,18 @@ impl Property for C12 {
             4 => (name, hostile_value()),
         ];
         let max = if tier == Tier::Thorough { 14 } else { 10 };
-        (0..EXPRS.len() as u8, proptest::collection::vec(pair, 1..=max)).prop_map(|(expr, sets)| Case { expr, sets }).boxed()
+        // some calls are repeated later in the history (setting a preference to the value it already has)
+        (0..EXPRS.len() as u8, proptest::collection::vec(pair, 1..=max), proptest::collection::vec((any::<u16>(), any::<u16>()), 0..3))
+            .prop_map(|(expr, mut sets, dups)| {
+                for (a, b) in dups {
+                    let i = (a as usize * sets.len()) >> 16;
+                    let j = i + 1 + ((b as usize * (sets.len() - i)) >> 16);
+                    let copy = sets[i].clone();
+                    sets.insert(j.min(sets.len()), copy);
+                }
+                Case { expr, sets }
+            })
+            .boxed()
     }
     fn explicit_cases(&self, _tier: Tier) -> Vec<Case> {
         // exhaustive sweep: every known name x {each listed valid value, wrong-kind value, empty value} in a fresh session
@@ -183,6 +194,12 @@ impl Property for C12 {
             out.push(Case { expr: 0, sets: vec![(n.to_string(), wrong.to_string())] });
             out.push(Case { expr: 0, sets: vec![(n.to_string(), String::new())] });
             out.push(Case { expr: 1, sets: vec![(format!("{}x", n), "true".to_string())] });
+        }
+        // repeat sweep: every listed valid value set twice in a row, in a session where Language=Auto / LanguageAuto are in use
+        for (n, _, vals) in known_prefs() {
+            for v in vals {
+                out.push(Case { expr: 0, sets: vec![("Language".to_string(), "Auto".to_string()), ("LanguageAuto".to_string(), "es".to_string()), (n.to_string(), v.to_string()), (n.to_string(), v.to_string())] });
+            }
         }
         // scope sweep: every shipped braille code x every code-specific preference changed to another value
         for code in crate::gen::braille_codes() {
@@ -243,13 +260,22 @@ impl Property for C12 {
                             break 'outer;
                         }
                     }
-                    model.insert(name.clone(), want);
+                    // (5) setting a preference to the value it already has changes no preference
+                    if snap.get(name.as_str()) == Some(&want) {
+                        let snap2 = snapshot();
+                        if snap != snap2 {
+                            let diff: Vec<String> = snap2.iter().filter(|(k, v)| snap.get(*k) != Some(v)).map(|(k, v)| format!("{}: {:?} -> {:?}", k, snap.get(k), v)).collect();
+                            viols.push((format!("unchanged-value-changed-preferences:{}", name), format!("set_preference({:?},{:?}) did not change the value but other preferences changed: {:?}\n  {}", name, value, diff, tr())));
+                            break 'outer;
+                        }
+                    }
+                    model.insert(name.clone(), want.clone());
                     // derived preferences are "unknown until read"
                     if ["Language", "LanguageAuto", "DecimalSeparator"].contains(&name.as_str()) {
                         model.remove("DecimalSeparators");
                         model.remove("BlockSeparators");
                     }
-                    if name == "Language" {
+                    if name == "Language" && snap.get("Language") != Some(&want) {
                         model.remove("LanguageAuto");
                     }
                     // (4) scope: outputs of the expression set *after* the change
@@ -263,6 +289,11 @@ impl Property for C12 {
                     };
                     let (keep_canon, keep_speech, keep_braille) = out_of_scope(name, &code);
                     let changed_before = snap.get(name.as_str()) != api::get_pref(name).ok().as_ref();
+                    // (5b) ... and no output
+                    if !changed_before && before != after {
+                        viols.push((format!("unchanged-value-changed-outputs:{}", name), format!("set_preference({:?},{:?}) did not change the value but outputs changed\nbefore: {:?}\nafter:  {:?}\n  {}", name, value, before, after, tr())));
+                        break 'outer;
+                    }
                     if changed_before {
                         let mut leaked = vec![];
                         if keep_canon && before.canon != after.canon {
@@ -329,7 +360,7 @@ impl Property for C12 {
         (3000, 80000)
     }
     fn rule(&self) -> String {
-        "cases = histories of 1..10 (thorough 14) set_preference calls (names: every key of the known preference table incl. API defaults, case variants, near misses, random names; values: listed valid values, wrong kind, empty, differently cased, numeric spellings, hostile strings) on one of three expressions in a fresh session, plus the exhaustive sweep name x {valid values, wrong-kind value, empty value, unknown near-miss name}; oracle (reference model = map name -> normalised value): accepted => get_preference returns the normalised value, now and after later calls and new expressions; unknown name / wrong kind / malformed language tag => Err; after a rejected call every known preference reads as before and canonical MathML, speech and braille are identical; scope: a changed preference leaves outputs outside its documented scope unchanged (coarse table, global preferences exempt); non-trivial = a rejected call with snapshot comparison or >= 2 modelled preferences re-read".into()
+        "cases = histories of 1..10 (thorough 14) set_preference calls (names: every key of the known preference table incl. API defaults, case variants, near misses, random names; values: listed valid values, wrong kind, empty, differently cased, numeric spellings, hostile strings) on one of three expressions in a fresh session, plus the exhaustive sweep name x {valid values, wrong-kind value, empty value, unknown near-miss name}; oracle (reference model = map name -> normalised value): accepted => get_preference returns the normalised value, now and after later calls and new expressions; unknown name / wrong kind / malformed language tag => Err; after a rejected call every known preference reads as before and canonical MathML, speech and braille are identical; scope: a changed preference leaves outputs outside its documented scope unchanged (coarse table, global preferences exempt) ; a call that sets a preference to the value it already has (calls are repeated later in the history, and every listed value is set twice in a row in a Language=Auto/LanguageAuto session) changes no preference and no output; non-trivial = a rejected call with snapshot comparison or >= 2 modelled preferences re-read".into()
     }
 }
 
